@@ -64,6 +64,57 @@ func extractScanTable(p *Program) (*scanTable, error) {
 			val int64
 		}
 		var sites []site
+		// a token looked up in a constant package-level table keyed by the character just
+		// read (`if t, ok := singleCharTokens[ch]; ok { return t, … }`)
+		var firstChar func(v ssa.Value, d int) bool
+		firstChar = func(v ssa.Value, d int) bool {
+			switch x := v.(type) {
+			case *ssa.Parameter:
+				return true
+			case *ssa.Call:
+				return x.Common().StaticCallee() == ri.Read && len(fn.Params) == 1
+			case *ssa.Phi:
+				if d > 3 {
+					return false
+				}
+				for _, e := range x.Edges {
+					if !firstChar(e, d+1) {
+						return false
+					}
+				}
+				return len(x.Edges) > 0
+			}
+			return false
+		}
+		tableOps := func(v ssa.Value) {
+			ex, ok := v.(*ssa.Extract)
+			if !ok || ex.Index != 0 {
+				return
+			}
+			lk, ok := ex.Tuple.(*ssa.Lookup)
+			if !ok || !lk.CommaOk || !firstChar(lk.Index, 0) {
+				return
+			}
+			ld, ok := lk.X.(*ssa.UnOp)
+			if !ok {
+				return
+			}
+			g, ok := ld.X.(*ssa.Global)
+			if !ok {
+				return
+			}
+			for k, v := range p.globalMapTable(g) {
+				var kv int64
+				if _, err := fmt.Sscan(k, &kv); err != nil || v.K != avConst || v.C == nil {
+					continue
+				}
+				if tv, ok := constant.Int64Val(constant.ToInt(v.C)); ok {
+					if name, ok := st.byValue[tv]; ok {
+						st.Ops[string(rune(kv))] = name
+					}
+				}
+			}
+		}
 		for _, b := range view.Blocks() {
 			for _, in := range view.Instrs(b) {
 				ret, ok := in.(*ssa.Return)
@@ -79,10 +130,14 @@ func extractScanTable(p *Program) (*scanTable, error) {
 				if c, ok := ret.Results[0].(*ssa.Const); ok && c.Value != nil {
 					sites = append(sites, site{b, c.Int64()})
 				}
+				tableOps(ret.Results[0])
 			}
 		}
 		if resAlloc != nil {
 			for _, s := range storesTo(resAlloc) {
+				if view.Live(s) {
+					tableOps(s.Val)
+				}
 				if c, ok := s.Val.(*ssa.Const); ok && c.Value != nil && view.Live(s) {
 					sites = append(sites, site{s.Block(), c.Int64()})
 				}
@@ -378,7 +433,7 @@ func (pr *printer) classifyCall(a Atom) ([]psym, error) {
 	}
 	// first-party helper
 	if a.Call != nil {
-		if sc := a.Call.Common().StaticCallee(); sc != nil && pr.p.isFirstParty(sc) && sc.Blocks != nil && len(sc.Params) == 1 {
+		if sc := a.Call.Common().StaticCallee(); sc != nil && pr.p.isFirstParty(sc) && sc.Blocks != nil && len(sc.Params) >= 1 && pr.bindPrinterParams(sc, a.Call) {
 			pt := sc.Params[0].Type()
 			if sl, ok := pt.Underlying().(*types.Slice); ok {
 				elem, sep, err := pr.listShape(sc)
@@ -394,6 +449,55 @@ func (pr *printer) classifyCall(a Atom) ([]psym, error) {
 		}
 	}
 	return nil, fmt.Errorf("cannot classify printed atom %s", a)
+}
+
+// bindPrinterParams: the helper takes the printed value first and, possibly, functions that
+// print an element; at this call every such parameter is bound to a method expression
+// (`SessionType.String`), whose method name then stands for the call of the parameter.
+func (pr *printer) bindPrinterParams(h *ssa.Function, call ssa.CallInstruction) bool {
+	if len(h.Params) == 1 {
+		return true
+	}
+	args := call.Common().Args
+	if len(args) != len(h.Params) {
+		return false
+	}
+	bind := map[*ssa.Parameter]string{}
+	for i := 1; i < len(h.Params); i++ {
+		if _, isSig := h.Params[i].Type().Underlying().(*types.Signature); !isSig {
+			return false
+		}
+		fnv, ok := args[i].(*ssa.Function)
+		if !ok || len(fnv.Blocks) != 1 {
+			return false
+		}
+		// the thunk of a method expression: one invoke of the method on its parameter
+		name := ""
+		for _, in := range fnv.Blocks[0].Instrs {
+			if c, ok := in.(*ssa.Call); ok {
+				if !c.Common().IsInvoke() || name != "" || len(fnv.Params) != 1 || c.Common().Value != ssa.Value(fnv.Params[0]) {
+					return false
+				}
+				name = c.Common().Method.Name()
+			}
+		}
+		if name == "" {
+			return false
+		}
+		bind[h.Params[i]] = name
+	}
+	if pr.sh.funcBind == nil {
+		pr.sh.funcBind = map[*ssa.Parameter]string{}
+	}
+	for k, v := range bind {
+		if old, have := pr.sh.funcBind[k]; have && old != v {
+			// the same helper bound differently at another call: shapes are per call,
+			// and this one is computed now
+			_ = old
+		}
+		pr.sh.funcBind[k] = v
+	}
+	return true
 }
 
 // listShape analyses a helper `func(xs []T) string` that prints a separated list:
